@@ -197,6 +197,28 @@ def make_agent(rp, scratch):
     return a
 
 
+def api_cancel_msg(rp, which, form):
+    """the control message the REAL PilotManager.cancel_pilots / Pilot.cancel publishes, as the agent receives
+    it (copied as the wire would).  which: 'named' (the agent's pilot pilot.0000 among those named), 'other'
+    (another pilot of the session), 'empty' (a manager that has no pilots).  form 1: the application cancels ONE
+    pilot through its handle (Pilot.cancel(), a single uid); the other pilot carries an application-chosen uid
+    which merely starts like this agent's pilot uid."""
+    import json
+    uids = {'named': ['pilot.0000', 'pilot.0007'], 'other': ['pilot.0007'], 'empty': []}[which]
+    if form == 1 and which != 'empty':
+        uids = ['pilot.0000'] if which == 'named' else ['pilot.00007']
+    pm = make_pmgr(rp)
+    for u in uids: make_pilot(rp, pm, u, 'PMGR_ACTIVE')
+    sent = []
+    pm.publish = lambda ch, msg, **kw: sent.append(msg)
+    pm.wait_pilots = lambda *a, **k: None
+    if which == 'empty':   pm.cancel_pilots()
+    elif form == 1:        pm._pilots[uids[0]].cancel()
+    else:                  pm.cancel_pilots(list(uids))
+    assert len(sent) == 1, sent
+    return json.loads(json.dumps(sent[0]))
+
+
 def bootstrap_block(src):
     """the final-state block of bootstrap_0.sh (text, executed by bash)"""
     bs = open(os.path.join(src, 'agent', 'bootstrap_0.sh')).read()
@@ -228,18 +250,14 @@ def run_agent(rp, events, finalize, scratch, block):
                     a.finalize()
                     early['signal'] = open('killme.signal').read().strip()
             a._session.close = close
-        for e in events:
+        for i, e in enumerate(events):
+            form = (i + len(events)) % 2
             if e == 'lifetime':
                 a._check_lifetime()          # time.time() >> _starttime + 60
-            elif e == 'cancel_named':
-                a._control_cb('control_pubsub', {'cmd': 'cancel_pilots',
-                              'arg': {'uids': ['pilot.0000', 'pilot.0007']}})
-            elif e == 'cancel_other':
-                a._control_cb('control_pubsub', {'cmd': 'cancel_pilots',
-                              'arg': {'uids': ['pilot.0007']}})
-            elif e == 'cancel_empty':
-                # what PilotManager.cancel_pilots() of a manager without pilots sends to every agent of the session
-                a._control_cb('control_pubsub', {'cmd': 'cancel_pilots', 'arg': {'uids': []}})
+            elif e in ('cancel_named', 'cancel_other', 'cancel_empty'):
+                # the request as the real pilot manager publishes it (a list of uids, or one pilot canceled through
+                # its handle; 'empty': PilotManager.cancel_pilots() of a manager without pilots reaches every agent)
+                a._control_cb('control_pubsub', api_cancel_msg(rp, e[7:], form))
             elif e == 'terminate':
                 a._control_cb('control_pubsub', {'cmd': 'terminate', 'arg': None})
         cause = a._final_cause
@@ -290,7 +308,8 @@ def monitor_agent(events, finalize, res):
         want = 'FAILED'
     if final != want:
         key = 'lifetime-expiry-not-DONE' if want == 'DONE' else \
-              'cancel-not-CANCELED' if want == 'CANCELED' else 'crash-not-FAILED'
+              'cancel-not-CANCELED' if want == 'CANCELED' else \
+              'canceled-by-a-request-naming-other-pilots' if final == 'CANCELED' else 'crash-not-FAILED'
         return (key, 'events %s finalize=%s: final state %s, expected %s' % (events, finalize, final, want))
     return None
 
